@@ -1,10 +1,45 @@
-(* C13  Lexing is lossless, positions are exact, nothing is skipped. (stub, extended below) *)
+(* C13  Lexing is lossless, positions are exact, nothing is skipped.
+   Only statements, [exact] and [Print Assumptions] live here.  [lex un ua s] is the
+   model of compiler/src/lex/lexer.rs `lex` (Model/Lexer.v); [un]/[ua] are arbitrary
+   classifications of the non-ASCII code points (char::is_numeric / is_alphanumeric),
+   so every theorem holds for all of Unicode. *)
 From Coq Require Import NArith List.
-From GV Require Import Base.Result Gen.TokenTypes Gen.Tokens Model.Lexer Spec.LexSpec.
+From GV Require Import Base.Result Gen.TokenTypes Gen.Tokens Model.Lexer Spec.LexSpec
+  Proofs.C13.LexRun.
 Import ListNotations.
 Local Open Scope N_scope.
 
+(* (a) whenever lex succeeds, the token texts concatenated in order are the input.
+   In particular no character is silently dropped: a character that cannot start or
+   continue a token makes lex fail. *)
+Theorem C13_lossless : forall un ua s ts,
+  lex un ua s = Ok ts -> concat (map tok_text ts) = s.
+Proof. exact lex_lossless. Qed.
+Print Assumptions C13_lossless.
+
+(* (b) no token is empty *)
+Theorem C13_no_empty_token : forall un ua s ts,
+  lex un ua s = Ok ts -> Forall (fun t => tok_text t <> []) ts.
+Proof. exact lex_no_empty_token. Qed.
+Print Assumptions C13_no_empty_token.
+
+(* lex never panics (the `text_column - 1` of the float/range split cannot underflow) *)
+Theorem C13_lex_no_panic : forall un ua s, no_panic (lex un ua s).
+Proof. exact lex_no_panic. Qed.
+Print Assumptions C13_lex_no_panic.
+
+(* ... and always returns: every call of next() consumes input or is one of the two
+   end-of-input flushes, so the model's fuel (length + 3) is never exhausted *)
+Theorem C13_lex_terminates : forall un ua s, terminates (lex un ua s).
+Proof. exact lex_terminates. Qed.
+Print Assumptions C13_lex_terminates.
+
+(* non-vacuity: lex succeeds on inputs that exercise the repaired paths *)
 Example C13_ex_runs : forall un ua,
   lex un ua [53; 32; 10; 10; 32; 54] =
   Ok [mkTok [53] TT_Number 0 0; mkTok [32; 10; 10] TT_Subexpression 0 1; mkTok [32] TT_Whitespace 2 0; mkTok [54] TT_Number 2 1].
+Proof. intros. vm_compute. reflexivity. Qed.
+
+(* a character that cannot start a token makes lex fail (`\ 5`), it is not skipped *)
+Example C13_ex_backslash_fails : forall un ua, lex un ua [92; 32; 53] = Err E_InvalidStart.
 Proof. intros. vm_compute. reflexivity. Qed.
